@@ -297,4 +297,39 @@ Section Rebuild.
     apply bool_eq_iff. symmetry.
     apply (reconstruct t cs HF g m a b); auto; lia.
   Qed.
+  (* ... and through any order oracle that agrees with the concept comparison: leq_elements / <=
+     on the concepts (rel := leq_i cs) or descendants() *)
+  Theorem table_recovered_rel (rel : nat -> nat -> bool) :
+    (forall a b, a < n -> b < n -> rel a b = leq_i cs a b) ->
+    rebuild_rel (height t) (width t) obj_labels attr_labels rel = t.
+  Proof.
+    intros Hrel. rewrite (table_as_map t Hwf) at 3. unfold rebuild_rel.
+    apply map_ext_in. intros g Hg. apply in_seq in Hg.
+    apply map_ext_in. intros m Hm. apply in_seq in Hm.
+    destruct (obj_home g) as [a [Ha [Ea Hga]]]; [lia|].
+    destruct (attr_home m) as [b [Hb [Eb Hmb]]]; [lia|].
+    rewrite Ea, Eb. rewrite Hrel by assumption.
+    apply bool_eq_iff. symmetry.
+    apply (reconstruct t cs HF g m a b); auto; lia.
+  Qed.
+
+  Definition desc_lists := map (descendants_nocache cs) (seq 0 (length cs)).
+
+  Lemma below_or_equal_desc a b : a < n -> b < n ->
+    Nat.eqb a b || mem a (nth b desc_lists []) = leq_i cs a b.
+  Proof.
+    intros Ha Hb. unfold desc_lists. rewrite nth_map_seq by exact Hb.
+    rewrite (mem_descendants cs b a Ha). unfold slt. destruct (Nat.eqb a b) eqn:E; simpl.
+    - apply Nat.eqb_eq in E. subst. symmetry. apply PO. apply (In_idxs cs). exact Ha.
+    - rewrite andb_true_r. reflexivity.
+  Qed.
+
+  Theorem table_recovered_leq :
+    rebuild_rel (height t) (width t) obj_labels attr_labels (leq_i cs) = t.
+  Proof. apply table_recovered_rel. reflexivity. Qed.
+
+  Theorem table_recovered_desc :
+    rebuild_rel (height t) (width t) obj_labels attr_labels
+                (fun a b => Nat.eqb a b || mem a (nth b desc_lists [])) = t.
+  Proof. apply table_recovered_rel. intros a b Ha Hb. apply below_or_equal_desc; assumption. Qed.
 End Rebuild.
